@@ -257,3 +257,50 @@ Theorem C07_iterator_without_afterfunc_refuted : exists pg sched,
   iterminalb_gen Proofs.PubSubIter.no_after_flags pg s = true /\ ctxd (ic s) = true /\ unsubs s = 0.
 Proof. exact Proofs.PubSubIter.iter_without_afterfunc_refuted. Qed.
 Print Assumptions C07_iterator_without_afterfunc_refuted.
+
+(* ================================================================================================================
+   sanityCheckSubscribersDelta AS WRITTEN IN THE CURRENT SOURCE is the model function [PubSubSanity.sanity_check] of
+   C07_sanity_detects_wrap / C07_sanity_silent_under_contract above.  coq/Gen/ImplPureSanity.v is printed from chanpubsub.go
+   by harness/cmd/gotr on every run; [GoFrag2.run2] is the interpreter of the fragment it is written in (Model/GoFrag2.v:
+   int32/int conversions and int32 subtraction with EXPLICIT two's-complement wraps, && || comparisons, `x.markBroken()` as
+   a logged effect, panic(msg) as an outcome).  [PureSpec.sanity_expected k]: k = 0 the function returns, nothing logged;
+   k = 1, 2, 3: it panics with that check's message after exactly one x.markBroken().
+   ================================================================================================================ *)
+From BB.Model Require GoFrag GoFrag2 PureSpec.
+From BB.Gen Require ImplPureSanity.
+From BB.Proofs Require SanityGen.
+
+(* For EVERY pair of arguments (any integers, in particular every pair of Go ints): the run of the translated source is
+   what the model says - no panic exactly when sanity_check = 0, otherwise the panic of the check the model names, and the
+   instance is marked broken exactly once before a panic and not at all without one. *)
+Theorem C07_sanity_source_is_model : forall subscribers delta : Z,
+  GoFrag2.run2 nil BB.Gen.ImplPureSanity.sanityCheckSubscribersDelta_def
+    (cons (GoFrag.VInt subscribers) (cons (GoFrag.VInt delta) nil))
+  = PureSpec.sanity_expected (PubSubSanity.sanity_check subscribers delta).
+Proof. exact Proofs.SanityGen.sanity_src_eq_model. Qed.
+Print Assumptions C07_sanity_source_is_model.
+
+(* The same without regard to WHICH of the three checks reports (this statement survives a re-ordering of the checks in
+   the source): the source panics, after marking the instance broken, iff the model's check fires. *)
+Theorem C07_sanity_source_fires_iff : forall subscribers delta : Z,
+  PureSpec.fires_of (GoFrag2.run2 nil BB.Gen.ImplPureSanity.sanityCheckSubscribersDelta_def
+                       (cons (GoFrag.VInt subscribers) (cons (GoFrag.VInt delta) nil)))
+  = Some (PubSubSanity.sanity_fires subscribers delta).
+Proof. exact Proofs.SanityGen.sanity_src_fires_iff. Qed.
+Print Assumptions C07_sanity_source_fires_iff.
+
+(* Not vacuous: min_int32 - 1 wraps to max_int32 and is reported as overflow (so is max_int32 + 1); the two negative-value
+   panics; two calls without a panic; a delta that does not fit an int32. *)
+Theorem C07_sanity_source_examples :
+  let run := fun s d => GoFrag2.run2 nil BB.Gen.ImplPureSanity.sanityCheckSubscribersDelta_def
+                          (cons (GoFrag.VInt s) (cons (GoFrag.VInt d) nil)) in
+  let broken := PureSpec.log_broken in
+  run (-2147483648)%Z 1%Z = GoFrag2.Panicked PureSpec.msg_overflow broken /\
+  run 2147483647%Z (-1)%Z = GoFrag2.Panicked PureSpec.msg_overflow broken /\
+  run (-1)%Z 0%Z = GoFrag2.Panicked PureSpec.msg_negative broken /\
+  run 0%Z 1%Z = GoFrag2.Panicked PureSpec.msg_negative_old broken /\
+  run 5%Z 1%Z = GoFrag2.Done nil /\
+  run 0%Z (-1)%Z = GoFrag2.Done nil /\
+  run 7%Z 4294967296%Z = GoFrag2.Panicked PureSpec.msg_overflow broken.
+Proof. exact Proofs.SanityGen.sanity_src_examples_run. Qed.
+Print Assumptions C07_sanity_source_examples.
